@@ -1174,6 +1174,9 @@ func (x *Exec) evalCall(env *CEnv, n *CCall) (*CV, error) {
 		if t.Sort == SSlice {
 			t = sBase(t)
 		}
+		if t.Sort == SPtr {
+			t = App(SInt, "pbase", t)
+		}
 		return &CV{T: Select(env.st.alloc, t), Ty: types.Typ[types.Bool]}, nil
 	case "hp": // raw heap cell of the element type of a slice expression: hp(s, addr, absIndex)
 		v, err := x.eval(env, n.Args[0])
